@@ -33,8 +33,9 @@ static int csame_(double zr, double zi, double re, double im) { return SAME(zr, 
 UF1(sqrt); UF1(exp); UF1(log); UF1(log1p); UF1(sin); UF1(cos); UF1(sinh); UF1(cosh); UF1(tanh);
 UF1(asin); UF1(acos); UF1(atan); UF1(acosh); UF1(atanh); UF2(pow); UF2(atan2); UF2(hypot);
 #define STUB1(name, uf, contract) double name(double x) { double r = __CPROVER_uninterpreted_##uf(x); __CPROVER_assume(contract); return r; }
-/* sqrt: NaN below 0; otherwise >= 0, zero only at zero, between 1 and x (so sqrt(1) == 1), not below 2^-537 (IEEE squareRoot) */
-STUB1(sqrt, sqrt, (ISNAN(x) || x < 0) ? ISNAN(r) : (r >= 0 && (x == 0) == (r == 0) && (x >= 1 ? (1 <= r && r <= x) : (x <= r && r <= 1)) && (x == 0 || r >= 0x1p-537)))
+/* sqrt: NaN below 0; otherwise >= 0, zero only at zero and then with the sign of the argument (sqrt(+-0) = +-0, F.10.4.5), between 1 and x
+   (so sqrt(1) == 1), not below 2^-537 (IEEE squareRoot) */
+STUB1(sqrt, sqrt, (ISNAN(x) || x < 0) ? ISNAN(r) : (r >= 0 && (x == 0) == (r == 0) && (x >= 1 ? (1 <= r && r <= x) : (x <= r && r <= 1)) && (x == 0 ? __CPROVER_signd(r) == __CPROVER_signd(x) : r >= 0x1p-537)))
 /* exp: never negative, exp(0) == 1, >= 1 right of 0, <= 1 left of 0, positive unless the argument is below -700 */
 STUB1(exp, exp, ISNAN(x) ? ISNAN(r) : (r >= 0 && (x != 0 || r == 1) && (x < 0 || r >= 1) && (x > 0 || r <= 1) && (x < -700 || r > 0) && (x > 700 || FINITE(r))))
 /* log: NaN below 0, -inf at 0, sign follows x - 1, finite for finite positive x */
@@ -78,6 +79,18 @@ double a_real_norm2(double x, double y)
     __CPROVER_assume((ISNAN(x) || ISNAN(y)) ? ISNAN(r) : (m <= r && r <= 2 * m && (ay != 0 || r == ax) && (ax != 0 || r == ay)));
     return r;
 }
+/* ---- contracts used ONLY to replace a callee inside a composition (units asinh .. acoth, wrappers_d .. g): the callee is a
+   deterministic function of *ctx and writes only *ctx; its own behaviour is the subject of the units asin, acos, atan, ... ---- */
+#define SAMEX(a, b) ((a) == (b) || ((a) != (a) && (b) != (b)))
+#define CUF(f)                                                                                                                 \
+    double __CPROVER_uninterpreted_c##f##_re(double, double);                                                                  \
+    double __CPROVER_uninterpreted_c##f##_im(double, double);                                                                  \
+    void contract_##f##_(a_complex *ctx)                                                                                       \
+        __CPROVER_requires(__CPROVER_rw_ok(ctx, sizeof(*ctx)))                                                                 \
+        __CPROVER_assigns(ctx->real, ctx->imag)                                                                                \
+        __CPROVER_ensures(SAMEX(ctx->real, __CPROVER_uninterpreted_c##f##_re(__CPROVER_old(ctx->real), __CPROVER_old(ctx->imag))) && \
+                          SAMEX(ctx->imag, __CPROVER_uninterpreted_c##f##_im(__CPROVER_old(ctx->real), __CPROVER_old(ctx->imag))));
+CUF(asin) CUF(acos) CUF(atan) CUF(asinh) CUF(acosh) CUF(atanh)
 #endif /* !VERIF_NATIVE */
 
 #include "src/complex.c"
@@ -682,8 +695,8 @@ void h_acosh(void)
     a_real const ar = w.real, ai = w.imag;
     a_complex_mul_imag_(&w, ai > 0 ? -1 : +1);
     ASSERT(CSAME(z, w.real, w.imag), "acosh_: acosh z = -i acos z if Im acos z > 0, +i acos z otherwise");
-    if (ai > 0) { ASSERT(z.real == ai && z.imag == -ar, "acosh_: Im acos z > 0 -> acosh z = Im acos z - i Re acos z"); }
-    else { ASSERT(SAME(z.real, -ai) && z.imag == ar, "acosh_: Im acos z <= 0 -> acosh z = -Im acos z + i Re acos z"); }
+    if (ai > 0) { ASSERT(SAME(z.real, ai) && SAME(z.imag, -ar), "acosh_: Im acos z > 0 -> acosh z = Im acos z - i Re acos z"); }
+    else { ASSERT(SAME(z.real, -ai) && SAME(z.imag, ar), "acosh_: Im acos z <= 0 -> acosh z = -Im acos z + i Re acos z"); }
     CANARY_AT(re == 1 && im == 1);
 }
 /* principal branch of acosh: Re >= 0, Im in [-pi, pi] with the sign of Im z */
